@@ -94,6 +94,20 @@ struct ServerLog {
     accepted: AtomicUsize,
     /// time of the last thing the server did or saw
     last: Mutex<Option<std::time::Instant>>,
+    /// one entry per accepted connection: progress counter of its handler thread
+    handlers: Mutex<Vec<Arc<HandlerState>>>,
+    /// requests received by the server / requests the client has finished (outcome returned)
+    requests_seen: AtomicUsize,
+    completed: AtomicUsize,
+}
+
+/// `beat` counts the read attempts a handler made while blocked waiting for the client (W / G /
+/// after its script): two more beats mean the handler has looked at its socket after a given
+/// moment, so it has seen any FIN or request sent before that moment - whatever the CPU load.
+#[derive(Default)]
+struct HandlerState {
+    beat: AtomicUsize,
+    done: AtomicBool,
 }
 
 impl ServerLog {
@@ -115,7 +129,7 @@ fn req_id(head: &[u8]) -> usize {
     s.split("/r").nth(1).map(|t| t.chars().take_while(|c| c.is_ascii_digit()).collect::<String>()).and_then(|t| t.parse().ok()).unwrap_or(9999)
 }
 
-fn handle_conn(mut s: TcpStream, evs: Vec<Ev>, auth: usize, idx: usize, log: Arc<ServerLog>, stop: Arc<AtomicBool>) {
+fn handle_conn(mut s: TcpStream, evs: Vec<Ev>, auth: usize, idx: usize, log: Arc<ServerLog>, stop: Arc<AtomicBool>, hs: Arc<HandlerState>) {
     let _ = s.set_nodelay(true);
     let _ = s.set_read_timeout(Some(TICK));
     let mut inbuf: Vec<u8> = vec![];
@@ -127,13 +141,16 @@ fn handle_conn(mut s: TcpStream, evs: Vec<Ev>, auth: usize, idx: usize, log: Arc
             if let Some(n) = find_crlfcrlf(inbuf) {
                 let head: Vec<u8> = inbuf.drain(..n).collect();
                 log.served.lock().unwrap()[auth][idx].push((req_id(&head), block));
+                log.requests_seen.fetch_add(1, Ordering::SeqCst);
                 log.touch();
                 return true;
             }
             if stop.load(Ordering::SeqCst) {
                 return false;
             }
-            match s.read(&mut tmp) {
+            let rd = s.read(&mut tmp);
+            hs.beat.fetch_add(1, Ordering::SeqCst);
+            match rd {
                 Ok(0) => {
                     *client_gone = true;
                     return false;
@@ -164,6 +181,12 @@ fn handle_conn(mut s: TcpStream, evs: Vec<Ev>, auth: usize, idx: usize, log: Arc
                 }
             }
             Ev::P => {
+                // until the client has returned from the request in progress (bounded)
+                let seen = log.requests_seen.load(Ordering::SeqCst);
+                let t0 = std::time::Instant::now();
+                while log.completed.load(Ordering::SeqCst) < seen && t0.elapsed() < client_timeout() * 3 && !stop.load(Ordering::SeqCst) {
+                    std::thread::sleep(Duration::from_millis(1));
+                }
                 std::thread::sleep(pause());
                 log.touch();
             }
@@ -190,7 +213,9 @@ fn handle_conn(mut s: TcpStream, evs: Vec<Ev>, auth: usize, idx: usize, log: Arc
     }
     // wait for FIN if the scenario is still running
     while !client_gone && !stop.load(Ordering::SeqCst) {
-        match s.read(&mut tmp) {
+        let rd = s.read(&mut tmp);
+        hs.beat.fetch_add(1, Ordering::SeqCst);
+        match rd {
             Ok(0) => client_gone = true,
             Ok(_) => {}
             Err(e) if matches!(e.kind(), std::io::ErrorKind::WouldBlock | std::io::ErrorKind::TimedOut) => {}
@@ -198,6 +223,7 @@ fn handle_conn(mut s: TcpStream, evs: Vec<Ev>, auth: usize, idx: usize, log: Arc
         }
     }
     log.open.fetch_sub(1, Ordering::SeqCst);
+    hs.done.store(true, Ordering::SeqCst);
     log.touch();
 }
 
@@ -235,7 +261,9 @@ fn start_server(sc: &Scenario) -> Server {
                         let evs = scripts.get(idx).cloned().unwrap_or_default();
                         let (log2, stop2) = (log.clone(), stop.clone());
                         let k = idx;
-                        hs.push(std::thread::spawn(move || handle_conn(s, evs, auth, k, log2, stop2)));
+                        let st = Arc::new(HandlerState::default());
+                        log.handlers.lock().unwrap().push(st.clone());
+                        hs.push(std::thread::spawn(move || handle_conn(s, evs, auth, k, log2, stop2, st)));
                         idx += 1;
                     }
                     Err(_) => std::thread::sleep(Duration::from_millis(1)),
@@ -251,12 +279,21 @@ fn start_server(sc: &Scenario) -> Server {
 
 // ------------------------------------------------------------------ client side
 
-/// wait until the peer has been silent for `quiet()` (bounded)
-async fn settle(log: &ServerLog) {
+/// The client has returned from `n` more requests. Wait until every connection handler of the
+/// server is blocked waiting for the client again and has looked at its socket twice since (so
+/// every FIN / byte the client sent has been seen and everything the script sends unprompted has
+/// been sent), and the server has been silent for `quiet()`. Progress-based, bounded.
+async fn settle(log: &ServerLog, n: usize) {
+    log.completed.fetch_add(n, Ordering::SeqCst);
     let t0 = std::time::Instant::now();
-    actix_rt::time::sleep(quiet()).await;
-    while log.idle_for() < quiet() && t0.elapsed() < quiet() * 40 {
-        actix_rt::time::sleep(quiet() / 5).await;
+    let snap: Vec<(Arc<HandlerState>, usize)> = log.handlers.lock().unwrap().iter().map(|h| (h.clone(), h.beat.load(Ordering::SeqCst))).collect();
+    actix_rt::time::sleep(quiet() / 5).await;
+    loop {
+        let all = snap.iter().all(|(h, b)| h.done.load(Ordering::SeqCst) || h.beat.load(Ordering::SeqCst) >= b + 2);
+        if (all && log.idle_for() >= quiet() / 2) || t0.elapsed() > client_timeout() * 6 {
+            break;
+        }
+        actix_rt::time::sleep(Duration::from_millis(2)).await;
     }
 }
 
@@ -340,12 +377,12 @@ fn run_scenario(sc: &Scenario) -> RunOut {
             if sc2.conc {
                 let futs: Vec<_> = sc2.reqs.iter().enumerate().map(|(k, r)| one_request(&client, ports[r.a], k, r)).collect();
                 outcomes = futures_util::future::join_all(futs).await;
-                settle(&log).await;
+                settle(&log, sc2.reqs.len()).await;
                 open_after.push(log.open.load(Ordering::SeqCst));
             } else {
                 for (k, r) in sc2.reqs.iter().enumerate() {
                     outcomes.push(one_request(&client, ports[r.a], k, r).await);
-                    settle(&log).await;
+                    settle(&log, 1).await;
                     open_after.push(log.open.load(Ordering::SeqCst));
                 }
             }
@@ -571,7 +608,7 @@ fn known_class(sc: &Scenario) -> &'static str {
         for c in a {
             for (bytes, closed, _) in blocks_of(c) {
                 match ref_parse(&bytes, closed, false) {
-                    Intent::Truncated { .. } if closed => return "F9-eof-before-framed-end",
+                    Intent::Truncated { .. } if closed => return "F9-truncated-length-body",
                     Intent::Complete { interim, .. } | Intent::Truncated { interim, .. } | Intent::NoEnd { interim, .. } if interim > 0 => f17 = true,
                     _ => {}
                 }
@@ -579,7 +616,7 @@ fn known_class(sc: &Scenario) -> &'static str {
         }
     }
     if f17 {
-        "F17-interim-1xx"
+        "F17-interim-1xx-final"
     } else {
         ""
     }
@@ -1225,7 +1262,12 @@ fn main() {
     } else {
         // idle machine: ~150 us; the unit grows with the measured latency, between 1x and 12x
         let us = measure_latency_us();
-        SCALE_PCT.store(((us as usize) * 100 / 400).clamp(100, 1200), Ordering::SeqCst);
+        // ... and with the run-queue length per core (a starved machine can still have a fast
+        // loop-back path at the moment of the measurement)
+        let load: f64 = std::fs::read_to_string("/proc/loadavg").ok().and_then(|t| t.split_whitespace().next().and_then(|x| x.parse().ok())).unwrap_or(0.0);
+        let cores = std::thread::available_parallelism().map(|n| n.get()).unwrap_or(1) as f64;
+        let by_load = (150.0 * load / cores) as usize;
+        SCALE_PCT.store(((us as usize) * 100 / 400).max(by_load).clamp(100, 1200), Ordering::SeqCst);
     }
     eprintln!("c17: time unit {}%", SCALE_PCT.load(Ordering::SeqCst));
     let (f9, f17) = detect_variant();
@@ -1293,7 +1335,12 @@ fn main() {
                 // a starved machine produces time-outs that are no behaviour of the client: retry
                 for _ in 0..3 {
                     match &r {
-                        Ok(run) if suspicious_timeout(&sc, run) => r = catch(|| run_scenario(&sc)),
+                        Ok(run) if suspicious_timeout(&sc, run) => {
+                            // the time unit is too small for this machine right now: double it
+                            let cur = SCALE_PCT.load(Ordering::SeqCst);
+                            SCALE_PCT.fetch_max((cur * 2).min(1200), Ordering::SeqCst);
+                            r = catch(|| run_scenario(&sc))
+                        }
                         _ => break,
                     }
                 }
